@@ -6,6 +6,7 @@ import CookModel.Lemmas.MetaFront
 import CookModel.Lemmas.MetaDiagsParser
 import CookModel.Lemmas.MetaDiagsFront
 import CookModel.Lemmas.MetaFrontDiags
+import CookModel.Lemmas.MetaAudit
 /-
   C14  Metadata-only parsing agrees with full parsing.
 
@@ -651,6 +652,121 @@ example :
     ((runBlock (α := Rat) C14_exCs ⟨0⟩ false toks #[] none).1.toList.filterMap isDiagEv).map (·.kind) =
       ["empty-metadata-value"] ∧
     (runBlock (α := Rat) C14_exCs ⟨0⟩ false toks #[] none).1.toList.map Ev.isKey = [false, false, false, false] := by
+  constructor <;> rfl
+
+/-! ## audit wave (notes/audit-C14.md): the premise "both succeed", the YAML clause, non-vacuity -/
+
+/-- **`parse_events` has output exactly when no event is a parser error** (`Event::Error`), for
+    every event list: the premise "both parses produce output" of the property is "neither event
+    stream contains an error event". -/
+theorem C14_output_iff_no_error_event (env : Env) (input : Str) (l : List (Ev α)) :
+    (parseEvents env input l).output.isSome = true ↔ ∀ ev ∈ l, ev.isErr = false :=
+  parseEvents_output_iff env input l
+
+/-- The ONLY error event the metadata-only parser can emit, on any input, is one of the
+    metadata-line diagnostics of `metadata_entry` (in fact `empty-metadata-key`; the other two kinds
+    are warnings): it never fails for a reason the full parser does not see. -/
+theorem C14_metadata_only_errors_are_metadata_errors (cs : CharSpec) (ext : Ext) (input : List Char)
+    (d : Diag) (h : Ev.error d ∈ (pullMetaEvents (α := α) cs ext input).1.toList) :
+    parseMetaKind d.kind = true :=
+  pullMetaEvents_errors_are_meta cs ext input d h
+
+/-- **The premise of the property is "the full parse succeeds".**  For EVERY input (with or without
+    front matter), extension set and environment: whenever `parse` has output, `parse_metadata` has
+    output as well.  So "for every input on which both succeed" quantifies over exactly the inputs
+    on which `parse` succeeds, and `C14_agree` applies to all of them.  (The converse is false: a
+    step with a parse error, e.g. `@x{1/0}` after a `>>` line, makes `parse` fail while
+    `parse_metadata`, which never looks at steps, succeeds — see the example below.) -/
+theorem C14_full_output_implies_metadata_only_output (env : Env) (input : Str)
+    (h1 : (parseRecipe (α := α) env input).output.isSome = true) :
+    (parseMetadata (α := α) env input).output.isSome = true :=
+  full_output_gives_meta_output env input h1
+
+/-- … hence `C14_agree` with the single premise that `parse` has output: `parse_metadata` then has
+    an output too, and its metadata part equals that of the full parse. -/
+theorem C14_agree_of_full_output (env : Env) (input : Str) (r1 : Col α)
+    (h1 : (parseRecipe (α := α) env input).output = some r1) :
+    ∃ r2 : Col α, (parseMetadata (α := α) env input).output = some r2 ∧
+      r1.metaMap = r2.metaMap ∧ r1.metaLocs = r2.metaLocs ∧ r1.servings = r2.servings ∧
+      r1.oldStyleUsed = r2.oldStyleUsed ∧ r1.frontMatter = r2.frontMatter ∧ r1.oldStyle = r2.oldStyle := by
+  have h := C14_full_output_implies_metadata_only_output (α := α) env input (by rw [h1]; rfl)
+  obtain ⟨r2, h2⟩ := Option.isSome_iff_exists.1 h
+  exact ⟨r2, h2, C14_agree env input r1 r2 h1 h2⟩
+
+/-- **"for `>>` entries and YAML front matter alike"**, with the external decoder made explicit.
+    `Col.metadataOut decode r` is the metadata a caller sees: with a front-matter event it is
+    `decode slice` — what `process_frontmatter` (`serde_yaml::from_str`, the std-key checks, the
+    removal of rejected keys) makes of the YAML slice (text AND offset), the code replacing the map by
+    the decoded mapping — and otherwise the `>>` map.  For EVERY such function `decode`, every input,
+    extension set and environment: whenever both parses have output the two results are equal.
+    ASSUMED (trusted base, `serde_yaml` is outside the model): the decoded mapping is a function of
+    the slice, the converter and the (default) parse options only — `process_frontmatter` reads
+    nothing else of the collector — which is what "for every `decode`" expresses.  PROVED: both entry
+    points hand it the same slice at the same offset (`C14_front_matter_split_same`), as the first
+    event, from the initial state; nothing the full parser emits afterwards touches the map
+    (`C14_front_matter_only_config_entries`, `C14_config_entry_keeps_metadata_after_front_matter`,
+    `C14_other_events_keep_metadata`). -/
+theorem C14_agree_for_every_decoder {β : Type} (decode : Text → β) (env : Env) (input : Str)
+    (r1 r2 : Col α) (h1 : (parseRecipe (α := α) env input).output = some r1)
+    (h2 : (parseMetadata (α := α) env input).output = some r2) :
+    r1.metadataOut decode = r2.metadataOut decode :=
+  metadataOut_agree decode env input r1 r2 h1 h2
+
+/-! non-vacuity of `C14_agree` in the `>>` case, VALUES and duplicate keys included: on
+    `>> a: b⏎>> k: v⏎>> a: c⏎x` both parses have output and both maps are `[(a, c), (k, v)]` — the
+    second `a` entry replaces the value in place (insertion order of the first), as
+    `serde_yaml::Mapping::insert` does.  (An implementation that agreed on keys only, or that kept
+    the first value in one of the two paths, would not satisfy `C14_agree`.) -/
+def C14_exInput3 : List Char := ">> a: b\n>> k: v\n>> a: c\nx".toList
+
+example : parseFrontmatter C14_exCs C14_exInput3 = none ∧
+    (parseRecipe (α := Rat) C14_exEnv0 C14_exInput3).output.map (·.metaMap) =
+      some [("a".toList, "c".toList), ("k".toList, "v".toList)] ∧
+    (parseMetadata (α := Rat) C14_exEnv0 C14_exInput3).output.map (·.metaMap) =
+      some [("a".toList, "c".toList), ("k".toList, "v".toList)] := by
+  have h : parseFrontmatter C14_exCs C14_exInput3 = none := by decide
+  have hl : lex C14_exCs C14_exInput3 = lexFuel C14_exCs 25 0 C14_exInput3 := lexFrom_eq_fuel _ _ _ _ (by decide)
+  refine ⟨h, ?_, ?_⟩
+  · unfold parseRecipe pullEvents
+    simp only [C14_exEnv0, h, hl]
+    decide +kernel
+  · unfold parseMetadata pullMetaEvents
+    simp only [C14_exEnv0, h, hl]
+    decide +kernel
+
+/-! the converse of `C14_full_output_implies_metadata_only_output` fails: on `>> a: b⏎@x{1/0}` (a
+    division by zero in a step) only `parse_metadata` has output -/
+example : (parseRecipe (α := Rat) C14_exEnv0 ">> a: b\n@x{1/0}".toList).output.isSome = false ∧
+    (parseMetadata (α := Rat) C14_exEnv0 ">> a: b\n@x{1/0}".toList).output.isSome = true := by
+  have h : parseFrontmatter C14_exCs ">> a: b\n@x{1/0}".toList = none := by decide
+  have hl : lex C14_exCs ">> a: b\n@x{1/0}".toList = lexFuel C14_exCs 15 0 ">> a: b\n@x{1/0}".toList :=
+    lexFrom_eq_fuel _ _ _ _ (by decide)
+  constructor
+  · unfold parseRecipe pullEvents
+    simp only [C14_exEnv0, h, hl]
+    decide +kernel
+  · unfold parseMetadata pullMetaEvents
+    simp only [C14_exEnv0, h, hl]
+    decide +kernel
+
+/-! on `>> :⏎x` (empty key, an error in BOTH streams) neither has output.  The decoder view distinguishes the two
+    cases: without front matter it is the `>>` map, with front matter the decoded slice. -/
+example : (parseRecipe (α := Rat) C14_exEnv0 ">> :\nx".toList).output.isSome = false ∧
+    (parseMetadata (α := Rat) C14_exEnv0 ">> :\nx".toList).output.isSome = false := by
+  have h : parseFrontmatter C14_exCs ">> :\nx".toList = none := by decide
+  have hl : lex C14_exCs ">> :\nx".toList = lexFuel C14_exCs 6 0 ">> :\nx".toList := lexFrom_eq_fuel _ _ _ _ (by decide)
+  constructor
+  · unfold parseRecipe pullEvents
+    simp only [C14_exEnv0, h, hl]
+    decide +kernel
+  · unfold parseMetadata pullMetaEvents
+    simp only [C14_exEnv0, h, hl]
+    decide +kernel
+
+example : (Col.metadataOut (α := Rat) (fun t => t.span) { metaMap := [("a".toList, "b".toList)] }) =
+      .inl [("a".toList, "b".toList)] ∧
+    (Col.metadataOut (α := Rat) (fun t => t.span)
+      { frontMatter := some (Text.fromStr "a: 1\n".toList 4), oldStyle := false }) = .inr ⟨4, 9⟩ := by
   constructor <;> rfl
 
 end Cook
